@@ -67,6 +67,8 @@ const (
 	bhLate
 	bhTwice
 	bhNever
+	bhDelayedResult // reply at once, Result() called only after more than the timeout has passed since Request()
+	bhTwiceNow      // two replies back to back from inside Receive
 )
 
 type reqMsg struct {
@@ -93,11 +95,18 @@ func (rsp *c11Responder) Receive(c *actor.Context) {
 		rsp.pending[m.ID] = c.Sender()
 		rsp.mu.Unlock()
 		switch m.Bh {
-		case bhImmediate, bhTwice:
+		case bhImmediate, bhTwice, bhDelayedResult:
+			c.Respond(&replyMsg{ForID: m.ID, Nth: 1})
 			rsp.mu.Lock()
 			rsp.answers[m.ID]++
 			rsp.mu.Unlock()
+		case bhTwiceNow:
 			c.Respond(&replyMsg{ForID: m.ID, Nth: 1})
+			rsp.mu.Lock()
+			rsp.answers[m.ID]++
+			rsp.mu.Unlock()
+			// the second one may have to wait until Result() has taken the first (one-slot channel)
+			c.Respond(&replyMsg{ForID: m.ID, Nth: 2})
 		}
 	}
 }
@@ -112,6 +121,12 @@ func (rsp *c11Responder) release(id, nth int) *actor.PID {
 		rsp.eng.Send(to, &replyMsg{ForID: id, Nth: nth})
 	}
 	return to
+}
+
+func (rsp *c11Responder) answered(id int) bool {
+	rsp.mu.Lock()
+	defer rsp.mu.Unlock()
+	return rsp.answers[id] > 0
 }
 
 func (rsp *c11Responder) got(id int) bool {
@@ -157,7 +172,7 @@ func c11Run(c *caseCtx) (res caseResult) {
 		i := i
 		o := &outs[i]
 		o.id = i + 1
-		o.bh = pick(r, bhImmediate, bhImmediate, bhBeforeResult, bhLate, bhTwice, bhNever)
+		o.bh = pick(r, bhImmediate, bhImmediate, bhBeforeResult, bhLate, bhTwice, bhNever, bhDelayedResult, bhTwiceNow)
 		o.rsp = r.Intn(nRsp)
 		bhCount[o.bh]++
 		wg.Add(1)
@@ -166,7 +181,7 @@ func c11Run(c *caseCtx) (res caseResult) {
 			<-startCh
 			rsp := rsps[o.rsp]
 			to := timeout
-			if o.bh == bhImmediate || o.bh == bhBeforeResult || o.bh == bhTwice {
+			if o.bh == bhImmediate || o.bh == bhBeforeResult || o.bh == bhTwice || o.bh == bhTwiceNow {
 				to = 20 * time.Second // the reply is there (or on its way): the timeout must not matter
 			}
 			resp := e.Request(rpids[o.rsp], &reqMsg{ID: o.id, Bh: o.bh}, to)
@@ -178,6 +193,15 @@ func c11Run(c *caseCtx) (res caseResult) {
 					return
 				}
 				rsp.release(o.id, 1)
+			}
+			if o.bh == bhDelayedResult {
+				// scatter/gather: the reply has been sent (Respond returned), then more than the timeout passes
+				// before the caller gets round to Result(): the reply that is waiting must be returned
+				if !waitFor(wd, func() bool { return rsp.answered(o.id) }) {
+					atomic.AddInt32(&stuck, 1)
+					return
+				}
+				time.Sleep(to + to/2)
 			}
 			t0 := time.Now()
 			o.val, o.err = resp.Result()
@@ -236,7 +260,7 @@ func c11Run(c *caseCtx) (res caseResult) {
 			continue
 		}
 		switch o.bh {
-		case bhImmediate, bhBeforeResult, bhTwice:
+		case bhImmediate, bhBeforeResult, bhTwice, bhDelayedResult, bhTwiceNow:
 			if o.err != nil {
 				res.violate("request %d (behaviour %d): Result returned error %v although the reply had been sent (elapsed %v)", o.id, o.bh, o.err, o.elapsed)
 				continue
@@ -263,6 +287,38 @@ func c11Run(c *caseCtx) (res caseResult) {
 		if o.regAfter {
 			res.violate("request %d: the response PID %v was still registered after Result had returned (err=%v)", o.id, o.respPID, o.err)
 		}
+	}
+	// a second wave of plain requests: whatever the first wave left behind (surplus replies, recycled
+	// response state) must not reach them
+	nWave := 4 + r.Intn(12)
+	var wwg sync.WaitGroup
+	waveErr := make([]string, nWave)
+	for i := 0; i < nWave; i++ {
+		i := i
+		wwg.Add(1)
+		go func() {
+			defer wwg.Done()
+			id := 100000 + i
+			v, err := e.Request(rpids[i%nRsp], &reqMsg{ID: id, Bh: bhImmediate}, 20*time.Second).Result()
+			if err != nil {
+				waveErr[i] = fmt.Sprintf("request %d of the second wave: %v", id, err)
+			} else if rp, ok := v.(*replyMsg); !ok || rp.ForID != id {
+				waveErr[i] = fmt.Sprintf("request %d of the second wave received %+v: a reply meant for an earlier request (cross-talk)", id, v)
+			}
+		}()
+	}
+	wdone := make(chan struct{})
+	go func() { wwg.Wait(); close(wdone) }()
+	select {
+	case <-wdone:
+		for _, w := range waveErr {
+			if w != "" {
+				res.violate("%s", w)
+				break
+			}
+		}
+	case <-time.After(wd + 25*time.Second):
+		res.inconclusive("second wave did not finish")
 	}
 	// every late / second reply is exactly one dead letter addressed to that response PID
 	for _, l := range lates {
